@@ -85,6 +85,12 @@ Inductive pc :=
 | OClose
 | OStatus
 | ODropPool
+(* the same operations stopped at the schedule point before their lock *)
+| OResizeL (n : nat)
+| ORetainS (ds : list bool)      (* retain, before the lock of its status() call *)
+| ORetainL (ds : list bool)      (* retain, before its own lock *)
+| OCloseL
+| OStatusL
 | PDone (r : res).
 
 Inductive op :=
@@ -465,17 +471,22 @@ Definition step_task (c : cfg) (s : state) (t : nat) : option state :=
   | TAdd o => Some (setpc (sem_add s) t (TDetach o))
   | TDetach o =>
       Some (setpc (emit (emit s (EDetach (oid o) t)) (ERemoved (oid o) t)) t (PDone RUnit))
-  | OResize n =>
+  | OResize n => Some (setpc s t (OResizeL n))
+  | OClose => Some (setpc s t OCloseL)
+  | OStatus => Some (setpc s t OStatusL)
+  | ORetain ds => Some (setpc s t (ORetainS ds))
+  | ORetainS ds => Some (setpc s t (ORetainL ds))
+  | OResizeL n =>
       if closed s then Some (setpc s t (PDone RUnit))
       else Some (setpc (resize_locked s t (Z.of_nat n)) t (PDone RUnit))
-  | OClose =>
+  | OCloseL =>
       Some (setpc (resize_locked (set_queue (set_closed s true) []) t 0) t (PDone RUnit))
-  | ORetain ds =>
+  | ORetainL ds =>
       let '(s1, kept, removed) := retain_loop t ds (vec s) s in
       let s2 := set_size (set_vec s1 kept) (size s1 - Z.of_nat (length removed)) in
       let s3 := emit s2 (ERetainResult (length kept) (length removed)) in
       Some (setpc (emit_removed t removed s3) t (PDone RUnit))
-  | OStatus => Some (setpc (emit s (status_event s)) t (PDone RUnit))
+  | OStatusL => Some (setpc (emit s (status_event s)) t (PDone RUnit))
   | ODropPool =>
       Some (setpc (emit_destroyed t (vec s) (set_vec (set_alive s false) [])) t (PDone RUnit))
   | _ => None
